@@ -161,6 +161,34 @@ def check_case(case):
             vs.append(C.viol("attached-flags", k2, {"n": n, "attached_true": sum(att)}, case))
         if l.user_defined_controllers != n:
             vs.append(C.viol("count", k2, {"n": n, "loaded": l.user_defined_controllers}, case))
+        if ctx in ("synth", "project") and n >= 1 and not vs:
+            # second generation: the FIRST change of the count on the loaded module is a decrease; in both contexts the next
+            # file exposes exactly the first n-1 controllers (values, labels, MIDI bindings of the hidden one are not written)
+            try:
+                l.user_defined_controllers = n - 1
+                if ctx == "project":
+                    p2 = rv.Project()
+                    if l.parent is not None:
+                        l.parent.modules[l.index] = None
+                        l.parent, l.index = None, None
+                    p2.attach_module(l)
+                    bb = C.save(p2)
+                    dm2 = codec.decode(bb).value["modules"][1]
+                    l2 = C.load_bytes(bb).modules[1]
+                else:
+                    bb = C.save(rv.Synth(l))
+                    dm2 = codec.decode(bb).value["module"]
+                    l2 = C.load_bytes(bb).module
+                k3 = dict(k2, after="count-lowered-on-loaded-module")
+                vs += structural(dm2, n - 1, None, k3, case)
+                att2 = [c.attached(l2) for c in l2.user_defined]
+                if att2 != [True] * (n - 1) + [False] * (96 - n + 1) or l2.user_defined_controllers != n - 1:
+                    vs.append(C.viol("attached-flags", k3, {"n": n - 1, "attached_true": sum(att2)}, case))
+                lab2 = {i: c.label for i, c in enumerate(l2.user_defined) if c.label is not None and i >= n - 1}
+                if lab2:
+                    vs.append(C.viol("label-written-beyond-count", k3, {"labels": lab2}, case))
+            except Exception as e:
+                vs.append(C.viol("count-change-on-loaded-module-raises", dict(k2, exc=type(e).__name__), {"error": repr(e)[:200]}, case))
         if dm is not None:
             vs += structural(dm, n, spec.get("labels"), k2, case)
             # the stored word of a mapped controller, as documented: value minus a negative minimum of the range it mirrors
@@ -234,6 +262,17 @@ def object_cases(ctx):
         add("mapping-chain", {"child": leaf, "n": 1, "maps": [[0, 1, 5]], "expect_raw": {"0": raw}})
         add("mapping-chain", {"child": {"child": leaf, "n": 2, "maps": [[1, 1, 5]], "expect_raw": {"1": raw}}, "n": 1,
                               "maps": [[0, 1, 6]], "expect_raw": {"0": raw}})
+    # a nested MetaModule that exposes NOTHING (count 0) but is wired into the embedded project and is the target of an
+    # outer mapping (an object that looks "empty" must still count as a module)
+    empty_child = {"inner": [["Amplifier", []]], "n": 0}
+    add("nested-metamodule-with-count-0", {"child": empty_child, "inner": [["Generator", []]], "n": 1, "maps": [[0, 2, 2]],
+                                           "links": [[1, 2], [2, 0]]})
+    add("nested-metamodule-with-count-0", {"child": {"child": empty_child, "inner": [["Generator", []]], "n": 0, "links": [[1, 2], [2, 0]]},
+                                           "inner": [["Generator", []]], "n": 0, "links": [[1, 2], [2, 0], [1, 0]]})
+    # a nested MetaModule whose stored user-defined values differ from their (shared) target's value
+    twin = {"inner": [["Amplifier", []]], "n": 2, "maps": [[0, 1, 0], [1, 1, 0]], "values": {"0": 10, "1": 20}}
+    add("nested-stored-values-differ-from-target", {"child": twin, "n": 0})
+    add("nested-stored-values-differ-from-target", {"child": {"child": twin, "n": 1, "maps": [[0, 1, 5]]}, "n": 0})
     # an earlier mapping points at a module slot that has been emptied; later mappings onto negative-minimum targets
     bal, dco = ctl_index("Amplifier", "balance"), ctl_index("Amplifier", "dc_offset")
     for hole_first in (True, False):
